@@ -24,6 +24,7 @@ class RunCtx:
         self.own_orders = {}     # agent_id -> list of Order objects it created
         self.snap = {}           # id(order) -> what the agent asked for (before any event touched it)
         self.runner = None
+        self.sim = None
         self.logger = None
         self.on_event = None     # callback(kind, agent, payload) for online oracles
 
@@ -31,6 +32,35 @@ class RunCtx:
         self.events.append((kind, agent.agent_id if agent is not None else None, payload))
         if self.on_event is not None:
             self.on_event(kind, agent, payload)
+
+
+def _acts_for(menu, aid, t, k):
+    """the action menu of agent `aid` at time t (k = number of earlier consultations); [] = inert."""
+    acts = menu.get("acts", ["none", "limit"])
+    per_agent = menu.get("per_agent", {}).get(str(aid))
+    if per_agent is not None:
+        acts = per_agent.get("acts", acts)
+    abt = (per_agent or {}).get("acts_by_time") or menu.get("acts_by_time")
+    if abt:
+        ks = [int(x) for x in abt if int(x) <= t]
+        if ks:
+            acts = abt[str(max(ks))]
+    limit = menu.get("max_consults")
+    if limit is not None and k >= limit:
+        return []
+    win = (per_agent or {}).get("active", [menu.get("active_from", 0), menu.get("active_until", 10 ** 9)])
+    if t < win[0] or t > win[1]:
+        return []
+    return [a for a in acts if a != "none"] and acts
+
+
+def is_inert(x):
+    """True for a scripted agent that will certainly return [] if consulted now."""
+    ctx = RUN
+    if ctx is None or ctx.sim is None or not isinstance(x, (ScriptedAgent, ScriptedHFT)):
+        return False
+    t = ctx.sim.markets[0].get_time()
+    return not _acts_for(ctx.menu, x.agent_id, t, ctx.consults.get(x.agent_id, 0))
 
 
 def _decide(agent, markets):
@@ -194,6 +224,8 @@ def make_run(g, settings, menu, classes=(), logger_cls=StreamLogger, on_event=No
     ctx.settings_in = settings
     prng = SymRandom(g, "rn")
     prng.on_draw = lambda kind, val: ctx.emit("draw:" + kind, None, val)
+    if menu.get("reduce_inert", True):
+        prng.inert = is_inert
     r = SequentialRunner(settings=settings, prng=prng, logger=ctx.logger)
     for c in (ScriptedAgent, ScriptedHFT, ProbeAll) + tuple(classes):
         r.class_register(c)
